@@ -27,8 +27,9 @@ type Env struct {
 
 func (e *FEnc) fnEnv(st, old *State, extra map[string]*Val) *Env {
 	env := &Env{fe: e, st: st, old: old, vars: map[string]*Val{}, pkg: e.fn.Pkg.Pkg, bound: map[string]*Val{}}
-	for _, p := range e.fn.Params {
+	for i, p := range e.fn.Params {
 		env.vars[p.Name()] = e.vals[p]
+		env.vars[fmt.Sprintf("in%d", i)] = e.vals[p] // positional alias (a parameter named err is shadowed by the result)
 	}
 	for k, v := range extra {
 		env.vars[k] = v
@@ -234,6 +235,17 @@ func (e *FEnc) lookupName(env *Env, name string) (*Val, error) {
 		return e.boolVal("false"), nil
 	case "nil":
 		return &Val{Sort: "Nil", T: "nil"}, nil
+	}
+	if env.st != nil && e.fn != nil {
+		// a variable of the enclosing function captured by this function literal: its value in the given state
+		for _, fv := range e.fn.FreeVars {
+			if fv.Name() == name {
+				v := e.valOf(fv)
+				if v.P != nil && v.P.Root == rLocal {
+					return e.load(env.st, v.P), nil
+				}
+			}
+		}
 	}
 	if env.blk != nil {
 		if v, ok := e.lookupVar(env.st, name, env.blk, env.idx); ok {
@@ -890,12 +902,17 @@ func (e *FEnc) evalCall(env *Env, x *Ex) (*Val, error) {
 	return nil, fmt.Errorf("unknown function %q", x.Name)
 }
 
-func (e *FEnc) mapCard(st *State, mt *types.Map, m string) string {
-	dn, ds, _, _ := e.mapHeaps(mt)
-	d := e.heapGet(st, dn, ds)
+func (e *FEnc) cardFn(mt *types.Map) string {
 	ks := e.sortOf(mt.Key())
 	nm := "card_" + e.d.typeKey(mt.Key())
 	e.d.add("fn:"+nm, fmt.Sprintf("(declare-fun %s ((Array %s Bool)) Int)", nm, ks))
+	return nm
+}
+
+func (e *FEnc) mapCard(st *State, mt *types.Map, m string) string {
+	dn, ds, _, _ := e.mapHeaps(mt)
+	d := e.heapGet(st, dn, ds)
+	nm := e.cardFn(mt)
 	t := fmt.Sprintf("(%s (select %s %s))", nm, d, m)
 	e.fact(fmt.Sprintf("(>= %s 0)", t))
 	return t
